@@ -106,9 +106,20 @@ class SimManagerQueue(_KernelObject):
         self.items = []
         self.put_log = []      # (step, task name, payload) for oracles
         self.get_log = []
+        self.blocked_puts = {}  # task -> (pickled item, item): requests the manager has received and is waiting on
+        self.orphan_puts = []   # ... whose client process was killed meanwhile: the server still completes them
 
     def _full(self):
         return 0 < self.maxsize <= len(self.items)
+
+    def _complete_orphans(self):
+        # requests of killed clients are completed by the manager as soon as there is room
+        for t in [t for t in self.blocked_puts if getattr(t, "killed", False)]:
+            self.orphan_puts.append(self.blocked_puts.pop(t))
+        while self.orphan_puts and not self._full():
+            data, item = self.orphan_puts.pop(0)
+            self.items.append(data)
+            self.put_log.append((self.k.step, "manager(orphan)", item))
 
     def put(self, item, block=True, timeout=None):
         k = self.k
@@ -124,7 +135,11 @@ class SimManagerQueue(_KernelObject):
                     if not k.timed_block(lambda: not self._full() or self.m.closed, (self.role, "put")):
                         raise _queue.Full
                 else:
-                    k.block(lambda: not self._full() or self.m.closed, (self.role, "put"))
+                    self.blocked_puts[k.current] = (data, item)
+                    try:
+                        k.block(lambda: not self._full() or self.m.closed, (self.role, "put"))
+                    finally:
+                        self.blocked_puts.pop(k.current, None)
                 self.m._check()
         self.items.append(data)
         self.put_log.append((k.step, k.current.name, item))
@@ -136,6 +151,7 @@ class SimManagerQueue(_KernelObject):
         k = self.k
         k.switch(f"{self.role}.get", sync=True)
         self.m._check()
+        self._complete_orphans()
         if not block or (timeout is not None and timeout <= 0):
             if not self.items:
                 raise _queue.Empty
@@ -149,6 +165,7 @@ class SimManagerQueue(_KernelObject):
                 self.m._check()
         item = pickle.loads(self.items.pop(0))
         self.get_log.append((k.step, k.current.name, item))
+        self._complete_orphans()
         return item
 
     def get_nowait(self):
